@@ -168,6 +168,25 @@ def check_C13(chk):
         chk.ob("C13.a", "dataflow/mask-on-written-spectrum", ok, f.loc(msw[0]), "the masked slice is inner_mut().as_mut_slice() of the spectrum that is written")
 
     # (b) control dependence
+    def dominating_conditions(b, own_field):
+        """branch edges dominating block b, classified; anything that is neither the step's own option, a `?` success edge of an
+        earlier fallible call, nor a match on the own option's payload is an extra condition"""
+        extra = []
+        for sb, st in f.switches():
+            for tgt in set(f.succ.get(sb, [])):
+                if not an.dominated_by_edge(f, sb, tgt, b):
+                    continue
+                s = an.switch_subject(f, sb)
+                if s["kind"] == "discr" and "ControlFlow" in (s.get("ty") or "") and tgt == an.edge_target(st, 0):
+                    continue
+                sl, info = f.slice_locals(st["discr"], through_calls=False)
+                flds = {fl for (a_, fl) in info["fields"] if a_ == VIEW}
+                if flds == {own_field}:
+                    continue
+                if s["kind"] == "discr" and "ControlFlow" in (s.get("ty") or ""):
+                    continue
+                extra.append("%s (depends on %s)" % (f.loc(sb), sorted(flds) or "a computed value"))
+        return extra
     osw = {"marginalize": option_switch(f, "marginalize"), "project": option_switch(f, "project")}
     fsw = {"mask": msw, "normalize": flag_switch(f, "normalize")}
     for nm, bs in steps[:4]:
@@ -182,8 +201,13 @@ def check_C13(chk):
                 continue
             if any(an.dominated_by_edge(f, sw2[0], sw2[1], b) or an.dominated_by_edge(f, sw2[0], sw2[2], b) and False for b in bs):
                 others.append(other)
+        own_field = {"mask": "mask_monomorphic"}.get(nm, nm)
+        # for the mask step the stores sit under their own `Some(first)` / `Some(last)` tests: judge the step by the block
+        # where it begins (the target of its flag's true edge)
+        for b in ([sw[1]] if nm == "mask" else bs):
+            others += dominating_conditions(b, own_field)
         chk.ob("C13.b", "View::run/%s/under-own-option-only" % nm, under_own and not others, f.loc(bs[0]) if bs else f.loc(),
-               "`%s` must run iff its own option is set (under own option: %s; also conditional on: %s)" % (nm, under_own, others))
+               "`%s` must run iff its own option is set (under own option: %s; also conditional on: %s)" % (nm, under_own, sorted(set(others))))
         # the skip edge performs none of the step
         skip_region = an.arm_region(f, sw[0], sw[2])
         chk.ob("C13.b", "View::run/%s/absent-when-option-unset" % nm, not (set(bs) & skip_region), f.loc(sw[0]), "with the option unset the step must not run")
